@@ -340,6 +340,9 @@ class Gen:
     def lanelet_geometry(self, k):
         n = self.r.choice([2, 2, 3, 4, self.r.randint(2, 7)])
         x0, y0 = self.real(-200, 200), self.real(-200, 200)
+        tiny = k == 0 and self.flip(0.3)   # a lanelet starting at the origin with tiny coordinates (exponent notation in repr)
+        if tiny:
+            x0 = y0 = 0.0
         w = self.r.uniform(2.0, 5.0)
         left, right = [], []
         x = x0
@@ -359,9 +362,9 @@ class Gen:
             f = lambda v: v
         left = [[f(a), f(b)] for a, b in left]
         right = [[f(a), f(b)] for a, b in right]
-        if k == 0 and self.flip(0.3):   # a lanelet through the origin with tiny coordinates (exponent notation in repr)
+        if tiny:   # still a simple polygon: only the first x / y of each bound are replaced by values of magnitude < 1e-5
             left[0] = [self.r.uniform(-9, 9) * 1e-6, left[0][1]]
-            right[0] = [self.r.uniform(-9, 9) * 1e-7, right[0][1]]
+            right[0] = [self.r.uniform(-9, 9) * 1e-7, self.r.uniform(-9, 9) * 1e-6]
         return left, right
 
     def subset(self, ids, p=0.35, maxn=3):
